@@ -46,7 +46,8 @@ def read_irrigation_management(
             # be applied for every day in the simulation
             df = df.reindex(ClockStruct.time_span, fill_value=0).drop("Date", axis=1)
 
-            schedule = np.array(df.values, dtype=float).flatten()
+            # (the depths, by name: the table may carry other columns)
+            schedule = np.array(df["Depth"].values, dtype=float)
             
         except TypeError:
             # older version of pandas with not reindex
